@@ -67,6 +67,43 @@ def sample_cases(read, classes, want=2):
     return out
 
 
+def foreign_streams(c, cov):
+    """second stage: streams no collector of the library writes (the independent specification's encoder of C03: raw bool
+    values other than 0/1, split zero runs, unknown documents, every numeric type for the type field, empty keys) through
+    every reader view; each view has to be the projection of the one table the specification's decoder reads (keys, order,
+    sample count, types, values; flattened documents included)"""
+    okc, outc = c.coq_build(["Extract/ExSpec.v"])
+    ok1, _ = c.ocaml_build("spec_model", "c03_gen.ml", "c03_gen")
+    ok2, _ = c.ocaml_build("spec_model", "c03_run.ml", "c03_run")
+    if not (okc and ok1 and ok2):
+        c.broken.append("specification model / drivers of the foreign-stream stage do not build: %s" % outc[-400:])
+        return
+    streams, dec = os.path.join(c.work, "foreign.streams.txt"), os.path.join(c.work, "foreign.dec.cases")
+    rcg, outg = c.model("c03_gen", [str(c.seed + 2), c.tier, streams], timeout=1500)
+    if rcg != 0:
+        c.broken.append("c03_gen failed rc=%d: %s" % (rcg, outg[-800:]))
+        return
+    rc, out = c.harness(["c03read", streams, dec], timeout=1500)
+    if rc != 0:
+        c.broken.append("harness c03read failed rc=%d: %s" % (rc, out[-1500:]))
+        c.violation({"kind": "implementation crashed or hung while being observed", "output": out[-3000:]}, no_input=True)
+        return
+    rcm, mout = c.model("c03_run", ["dec", dec], timeout=1500)
+    mism, viol, summ, other = verif.parse_model_output(mout)
+    known = [l for l in other if l.startswith("KNOWN")]
+    if rcm != 0 or "cases" not in summ:
+        c.broken.append("c03_run dec failed on the foreign streams: %s" % mout[-800:])
+    cov["foreign_streams"] = {"streams": summ.get("cases", 0), "views_disagreeing_with_the_table": len(viol) + len(mism),
+                              "known_class_cases": len(known)}
+    cov["evaluations"] = cov.get("evaluations", 0) + summ.get("cases", 0)
+    kf = {f["id"]: f for f in c.known_findings()}
+    if known and FINDING_TS in kf:
+        c.known(kf[FINDING_TS])
+    for v in (viol + mism)[:2]:
+        c.violation({"kind": "a reader view is not the projection of the table the specification's decoder reads (foreign stream)",
+                     "case": v[:6000]})
+
+
 def run(c):
     pr = c.coq_props(PROPS, extra_targets=["Extract/ExViews.v"])
     okb, _ = c.ocaml_build("views_model", "c02_run.ml", "c02_run")
@@ -111,6 +148,7 @@ def run(c):
                              "stream": cc.first_case_text(read, sid.group(1), start="S", end="ENDS") if sid else None})
             if mism and not viol:
                 c.broken.append("correspondence model<->implementation: %d disagreements, first: %s" % (len(mism), mism[0][:600]))
+        foreign_streams(c, cov)
     if c.broken and not c.violations:
         c.violation({"kind": "proof or correspondence no longer checks; no input violating C02 was found", "broken": c.broken}, no_input=True)
     if c.tier == "thorough" and pr["ok"]:
